@@ -450,22 +450,33 @@ fn pretty_print(output: TokenStream) -> String {
 fn pretty_print_rustfmt(tokens: TokenStream) -> String {
     let value = tokens.to_string();
     // TODO: Return errors?
-    if let Ok(mut proc) = Command::new("rustfmt")
+    // Fall back to the unformatted code if rustfmt is missing or fails in any way.
+    run_rustfmt(&value).unwrap_or(value)
+}
+
+fn run_rustfmt(value: &str) -> Option<String> {
+    let mut proc = Command::new("rustfmt")
         .arg("--emit=stdout")
         .stdin(Stdio::piped())
         .stdout(Stdio::piped())
         .stderr(Stdio::null())
         .spawn()
-    {
-        let stdin = proc.stdin.as_mut().unwrap();
-        stdin.write_all(value.as_bytes()).unwrap();
+        .ok()?;
 
-        let output = proc.wait_with_output().unwrap();
-        if output.status.success() {
-            return String::from_utf8(output.stdout).unwrap();
-        }
+    // The formatter may exit before reading all of its input.
+    // Dropping stdin closes the pipe, so the formatter sees the end of the input.
+    let written = proc
+        .stdin
+        .take()
+        .map(|mut stdin| stdin.write_all(value.as_bytes()));
+
+    // Always wait for the process to avoid leaving a zombie process behind.
+    let output = proc.wait_with_output().ok()?;
+    if !matches!(written, Some(Ok(()))) || !output.status.success() {
+        return None;
     }
-    value.to_string()
+
+    String::from_utf8(output.stdout).ok()
 }
 
 fn indexed_name_to_ident(name: &str, index: u32) -> Ident {
